@@ -88,6 +88,7 @@ structure NewGrpOpts where
   pub : PrivArg := .absent
   hasDesc : Bool := false
   chan : Bool := false            -- `nch…`: a channel-enabled group topic
+  tags : List String := []        -- already normalised and checked (Model/TopicTags.lean: newTopicTags)
 
 /-- symbolic name of the n-th group topic; spelled out for small n so that closed terms reduce in the kernel -/
 def tName : Nat → String
@@ -113,13 +114,13 @@ def Ctx.opNewGrp (c : Ctx) (a : Actor) (o : NewGrpOpts) : Ctx :=
     else (defAuth, modeNone)
   let want :=
     if o.want ≠ "" then (unmarshalKeep modeCFull o.want).1 ||| modeJoin ||| modeOwner else modeCFull
-  let row : TopicRow := { name := tn, owner := a.uid, auth := auth, anon := anon, pub := pubTok, chan := o.chan }
+  let row : TopicRow := { name := tn, owner := a.uid, auth := auth, anon := anon, pub := pubTok, chan := o.chan, tags := o.tags }
   let (c, ok) := c.call "TopicCreate" (fun w => { w.setRow row with nextT := w.nextT + 1 })
   if !ok then c.emit a.sid (ctrl 500 (if o.chan then "?nch" else "?new")) else
   let (c, ok) := c.subsCreate tn (newSubRow a.uid want modeCFull privTok)
   if !ok then c.emit a.sid (ctrl 500 (if o.chan then "?nch" else "?new")) else
   let t : Topic := { name := tn, owner := a.uid, auth := auth, anon := anon, pub := pubTok,
-                     perUser := [(a.uid, { want := want, given := modeCFull, priv := privTok })], isChan := o.chan }
+                     perUser := [(a.uid, { want := want, given := modeCFull, priv := privTok })], isChan := o.chan, tags := o.tags }
   let c := c.putLive t
   let (c, t, _) := c.subscriptionReply t a o.want o.priv true true false
   c.putLive t
